@@ -238,6 +238,95 @@ func streamConc(c *ctx) {
 			mu.Unlock()
 		}
 	}
+	// ---- a fresh implementation object, shared before its first use: all goroutines start at a barrier and make the
+	// object's first calls together; the reference values come from another object of the same key
+	for _, a := range allAlgs {
+		name := fmt.Sprintf("fresh shared implementation alg=%d", a.alg)
+		for round := 0; round < c.n(8, 80); round++ {
+			k, err := genKeyFor(a.alg)
+			if err != nil {
+				break
+			}
+			in := inputs[round%len(inputs)]
+			var body func(g int)
+			switch {
+			case a.alg < 0:
+				s, e1 := k.Signer()
+				v, e2 := k.Verifier()
+				if e1 != nil || e2 != nil {
+					break
+				}
+				body = func(g int) {
+					if sig, err := s.Sign(in); err != nil || v.Verify(in, sig) != nil {
+						fail("conc", "a signature made by a fresh shared signer does not verify", name, err, "valid")
+					}
+				}
+			case (a.alg >= 4 && a.alg <= 7) || a.alg == 14 || a.alg == 15 || a.alg == 25 || a.alg == 26:
+				m, e1 := k.MACer()
+				ref, e2 := k.MACer()
+				if e1 != nil || e2 != nil {
+					break
+				}
+				want, werr := ref.MACCreate(in)
+				if werr != nil {
+					continue // (AES-CBC-MAC refuses empty data)
+				}
+				body = func(g int) {
+					if g%2 == 0 {
+						if tag, err := m.MACCreate(in); err != nil || !bytes.Equal(tag, want) {
+							fail("conc", "a tag computed by a fresh shared MACer differs from the one computed alone", name, fmt.Sprintf("%x %v", tag, err), fmt.Sprintf("%x", want))
+						}
+					} else if m.MACVerify(in, want) != nil {
+						fail("conc", "a valid tag is refused by a fresh shared MACer", name, "error", "nil")
+					}
+				}
+			default:
+				e, e1 := k.Encryptor()
+				ref, e2 := k.Encryptor()
+				if e1 != nil || e2 != nil {
+					break
+				}
+				nonce := c.r.bytes(ref.NonceSize())
+				want, werr := ref.Encrypt(nonce, in, []byte("aad"))
+				if werr != nil {
+					continue
+				}
+				body = func(g int) {
+					if g%2 == 0 {
+						if ct, err := e.Encrypt(nonce, in, []byte("aad")); err != nil || !bytes.Equal(ct, want) {
+							fail("conc", "a ciphertext computed by a fresh shared encryptor differs from the one computed alone", name, fmt.Sprintf("%x %v", ct, err), fmt.Sprintf("%x", want))
+						}
+					} else if pt, err := e.Decrypt(nonce, want, []byte("aad")); err != nil || !bytes.Equal(pt, in) {
+						fail("conc", "a fresh shared encryptor does not return the plaintext", name, fmt.Sprintf("%x %v", pt, err), fmt.Sprintf("%x", in))
+					}
+				}
+			}
+			if body == nil {
+				break
+			}
+			start := make(chan struct{})
+			var wg sync.WaitGroup
+			for g := 0; g < G; g++ {
+				wg.Add(1)
+				go func(g int) {
+					defer wg.Done()
+					defer func() {
+						if r := recover(); r != nil {
+							fail("conc-panic", "a concurrent call panicked", name, r, "a result")
+						}
+					}()
+					<-start
+					body(g)
+				}(g)
+			}
+			close(start)
+			wg.Wait()
+			mu.Lock()
+			c.evals += G
+			c.distinct["conc|"+name] = true
+			mu.Unlock()
+		}
+	}
 	// ---- ECDH: one shared object per curve
 	for _, crv := range []int{1, 2, 3, 4} {
 		ka, e1 := ecdh.GenerateKey(crv)
@@ -268,9 +357,15 @@ func streamConc(c *ctx) {
 				}
 			}
 		}
+		// the reference secrets come from another object and from copies of the peers' keys: the shared object and the
+		// shared peer keys are untouched when the goroutines start
 		wants := make([][]byte, len(remotes))
-		for j, r := range remotes {
-			wants[j], _ = ea.ECDH(r)
+		befores := make([]string, len(remotes))
+		if eref, err := ecdh.NewECDHer(cloneKey(ka)); err == nil {
+			for j, r := range remotes {
+				wants[j], _ = eref.ECDH(cloneKey(r))
+				befores[j] = qMap(r)
+			}
 		}
 		par(fmt.Sprintf("ecdh crv=%d", crv), func(g, i int) {
 			j := (g + i) % len(remotes)
@@ -279,6 +374,11 @@ func streamConc(c *ctx) {
 				fail("conc", "a shared secret computed concurrently differs from the one computed alone", fmt.Sprintf("crv=%d remote %d of %d", crv, j, len(remotes)), fmt.Sprintf("%x %v", s, err), fmt.Sprintf("%x", wants[j]))
 			}
 		})
+		for j, r := range remotes {
+			if qMap(r) != befores[j] {
+				fail("conc", "ECDH changed the remote key it was given (a key shared between goroutines)", fmt.Sprintf("crv=%d remote %s", crv, befores[j]), qMap(r), "unchanged")
+			}
+		}
 	}
 	// ---- one validator
 	now := time.Now()
